@@ -199,7 +199,24 @@ func (idx *WorkspaceIndex) removeFileIndex(path string, fi *FileIndex) {
 	for payee := range fi.PayeeTemplates {
 		delete(idx.payeeTemplates, payee)
 	}
+	// a remaining file may define a template for the same payee
+	for _, otherPath := range sortedFileIndexPaths(idx.fileIndexes) {
+		for payee := range fi.PayeeTemplates {
+			if postings, ok := idx.fileIndexes[otherPath].PayeeTemplates[payee]; ok {
+				idx.payeeTemplates[payee] = postings
+			}
+		}
+	}
 	idx.refreshDerived()
+}
+
+func sortedFileIndexPaths(fileIndexes map[string]*FileIndex) []string {
+	paths := make([]string, 0, len(fileIndexes))
+	for path := range fileIndexes {
+		paths = append(paths, path)
+	}
+	sort.Strings(paths)
+	return paths
 }
 
 func (idx *WorkspaceIndex) decrementBy(counts map[string]int, key string, amount int) {
